@@ -296,6 +296,9 @@ class _ModData(dict):
     def __bool__(self):
         return True
 
+    def __contains__(self, k):
+        return True
+
     def __getitem__(self, k):
         if k in ("lo_data", "hi_data"):
             return [Poly.atom(f"{k}0"), Poly.atom(f"{k}1")]
